@@ -33,6 +33,9 @@ pub enum FSpec {
     Negate(Box<FSpec>),
     NotOp(Box<FSpec>),
     And(Box<FSpec>, Box<FSpec>),
+    /// `n` negations stacked directly on top of each other (alternately `negate()` and `!`); symbolic so
+    /// that replay files stay small
+    Deep { n: u16, inner: Box<FSpec> },
 }
 
 #[derive(Debug, Clone, Copy, Serialize, Deserialize)]
@@ -111,6 +114,14 @@ pub fn build(spec: &FSpec) -> (Filter, Tree) {
             let (fa, ta) = build(a);
             let (fb, tb) = build(b);
             (fa.and(fb), Tree::And(vec![ta, tb]))
+        }
+        FSpec::Deep { n, inner } => {
+            let (mut f, mut t) = build(inner);
+            for i in 0..*n {
+                f = if i % 2 == 0 { f.negate() } else { !f };
+                t = Tree::Not(Box::new(t));
+            }
+            (f, t)
         }
     }
 }
@@ -311,6 +322,22 @@ pub fn fspec() -> impl Strategy<Value = FSpec> {
             // the same sub-filter used twice in one conjunction
             1 => inner.clone().prop_map(|a| FSpec::And(Box::new(a.clone()), Box::new(a))),
             1 => (inner.clone(), inner).prop_map(|(a, b)| FSpec::And(Box::new(FSpec::And(Box::new(a.clone()), Box::new(b))), Box::new(a))),
+        ]
+    })
+    .prop_flat_map(|f| {
+        // now and then the whole expression (or one side of a conjunction) under a tall stack of
+        // negations: counts on a logarithmic scale with +-1 around the powers of two
+        prop_oneof![
+            60 => Just(f.clone()),
+            1 => ((1..=10u32), -1..=1i32, any::<bool>()).prop_map(move |(k, d, wrap)| {
+                let n = ((1i32 << k) + d).clamp(1, 1100) as u16;
+                let deep = FSpec::Deep { n, inner: Box::new(f.clone()) };
+                if wrap {
+                    FSpec::And(Box::new(deep), Box::new(FSpec::Exists(TagSpec::Any)))
+                } else {
+                    deep
+                }
+            }),
         ]
     })
 }
